@@ -338,7 +338,7 @@ def rule_accounting(facts):
                 r.bad("accounting|unpadded-order", "the byte count entering the record is not read after the check field", pat.where(b, late[3]))
     else:
         r.bad("accounting|unpadded-term", "unexpected shape of the unpadded-size term: %s" % flow.show(unp)[:120], pat.where(b), "unverifiable")
-    if pat.has_call(unc, "Vec::len") and not pat.has_op(unc, ("Add", "Sub", "Mul", "Shl", "Shr", "BitAnd")):
+    if pat.has_call(unc, "Vec::len") and not pat.spine_ops(unc):
         r.ok("term", {"uncompressed size": "length of the block's output buffer"})
     else:
         r.bad("accounting|uncompressed", "the recorded uncompressed size is not the length of the decoded block: %s" % flow.show(unc)[:100], pat.where(b))
